@@ -276,6 +276,17 @@ def known_hit(ctx, fid, what):
     ctx.known_hits.setdefault(fid, what)
 
 
+def _compact(x):
+    """int arrays (ids, radii) are written as hex strings in samples, for readability"""
+    if isinstance(x, list) and len(x) >= 8 and all(isinstance(i, int) and 0 <= i < 256 for i in x):
+        return "0x" + bytes(x).hex()
+    if isinstance(x, list):
+        return [_compact(i) for i in x]
+    if isinstance(x, dict):
+        return {k: _compact(v) for k, v in x.items()}
+    return x
+
+
 def write_evidence(ctx, level="model_checking", extra_cov=None):
     os.makedirs(EVID, exist_ok=True)
     cov = dict(ctx.cov)
@@ -285,7 +296,7 @@ def write_evidence(ctx, level="model_checking", extra_cov=None):
         "traces_validated_against_impl": int(ctx.traces),
         "evaluations": int(ctx.evaluations),
         "distinct_nontrivial": len(ctx.distinct),
-        "samples": ctx.samples[:6] if ctx.samples else ["(none)"],
+        "samples": _compact(ctx.samples[:6]) if ctx.samples else ["(none)"],
         "known_findings_observed": sorted(ctx.known_hits),
         "notes": ctx.notes,
     })
